@@ -67,8 +67,9 @@ func gen(t *rapid.T, template bool) Case {
 	if c.Funcs == nil {
 		c.Funcs = []x.FuncDef{}
 	}
-	depth := 5 - rapid.IntRange(0, 4).Draw(t, "depth")
-	g.SetBudget(6 + 7*depth)
+	// depth of the generated tree: 3,2,4,5,1 in decreasing likelihood (faults and try/can wrappers add up to 2 levels)
+	depth := []int{3, 2, 4, 5, 1}[rapid.IntRange(0, 4).Draw(t, "depth")]
+	g.SetBudget(4 + 5*depth)
 	if template {
 		c.Root = g.Template(depth, true)
 	} else {
@@ -369,7 +370,17 @@ func classify(c Case) core.Class {
 	if fault == "" {
 		fault = "none"
 	}
-	cl.Fingerprint = fmt.Sprintf("f=%02x|%s|fault=%s|modes=%s", bits, db, fault, strings.Join(ms, ","))
+	pm := "min"
+	layout := modes["space"] || modes["heredoc"] || modes["alt"]
+	switch {
+	case modes["parens"] && layout:
+		pm = "parens+layout"
+	case modes["parens"]:
+		pm = "parens"
+	case layout:
+		pm = "layout"
+	}
+	cl.Fingerprint = fmt.Sprintf("f=%02x|%s|fault=%s|modes=%s", bits, db, faultClass(fault), pm)
 	for k := range kinds {
 		cl.Labels = append(cl.Labels, "node:"+k)
 	}
@@ -394,6 +405,22 @@ func classify(c Case) core.Class {
 	}
 	sort.Strings(cl.Labels)
 	return cl
+}
+
+func faultClass(k string) string {
+	switch k {
+	case "type-op", "bad-cond", "null-op":
+		return "type"
+	case "undef-var", "undef-func", "arity", "expand":
+		return "name/arity"
+	case "missing-attr":
+		return "attr"
+	case "index-range", "index-neg", "index-frac", "index-prim":
+		return "index"
+	case "null-tmpl", "tmpl-nonprim":
+		return "template"
+	}
+	return k
 }
 
 const ruleCommon = "environment of 0-6 variables (numbers incl. dyadic fractions and 2^40, strings incl. numeric/boolean-looking and non-ASCII, bools, nulls, tuples, lists, objects, maps), 0-3 functions defined through ext/userfunc blocks (may call earlier ones, variadic, closures over the variables) plus tryfunc try/can; a typed tree of depth<=6 over literals, variables, unary/binary arithmetic, comparison, equality across types, logic, conditional (same-typed, null, string-unification branches), tuple/object constructors (bare/quoted/computed keys), index (literal, computed, string key), attribute, attribute-only and full splat (incl. traversal inside the splat vs applied to its result, splat of null / single value / list), for-expressions (tuple and object form, key+value variables, if, grouping), calls (incl. argument expansion), templates (literal, ${}, %{if/else}, %{for}, ~ strip markers, passthrough of a single interpolation); with probability 0.35 one node is replaced by an ill-typed variant (16 kinds: ill-typed operator, undefined variable/function, missing attribute, index out of range / negative / fractional / into a primitive, duplicate key without grouping, null or non-primitive in a template, null operand, wrong arity, for over a primitive, non-boolean condition, bad expansion). Every tree is printed 2-3 times: canonical minimal spelling and random spellings (redundant parentheses, spacing, tabs, newlines and # // /* */ comments where insignificant, ':' vs '=' and newline vs comma in object constructors, trailing commas, x.0 vs x[0], .* vs [*], number spellings 1e3 / 2.50 / 25e-1, \\uXXXX escapes, quoted vs heredoc vs flush heredoc with extra indentation). Oracle: all printings RawEqual and same error-ness; reference evaluator (exact rationals) says value => no error diagnostic and same value+type; says error => error diagnostic; trees leaving the documented semantics (README.md) are checked metamorphically only. Non-trivial: an operator with an unparenthesised operand of another precedence level in the minimal spelling, or a for-expression / splat / template directive; distinct = (feature set: operators, conditional, access/splat, for, call, template | depth bucket | fault kind | set of printing modes)"
